@@ -44,7 +44,7 @@ Judge(e) ==
   ELSE CASE e.op \in PrimOps -> JPrims(e)
          [] e.op = "Observe" -> JObserve(e, MemFor(e))
          [] e.op = "ReadSigned" -> << R(IF "ext" \in DOMAIN e THEN "X05" ELSE "C08", "signed_value_obtained_and_verifies", TRUE, e.r.setup /\ e.r.verify, e.fn \o "/" \o e.cls) >>
-         [] e.op \in {"Scribble", "ScribbleReturned"} -> << R(IF "ext" \in DOMAIN e THEN "X05" ELSE "C08", "overwrite_performed", TRUE, e.r.done, e.op) >>
+         [] e.op \in {"Scribble", "ScribbleReturned", "ScribbleRem"} -> << R(IF "ext" \in DOMAIN e THEN "X05" ELSE "C08", "overwrite_performed", TRUE, e.r.done, e.op) >>
          [] e.op = "Read" -> JRead(e) \o JAccOne(e.fn, e["in"], e.r, e) \o JAcc2One(e.fn, e["in"], e.r, e)
          [] e.op = "Twins" -> JTwinsWith(e, JAcc2One)
          [] e.op = "Tables" -> JTables(e)
